@@ -54,8 +54,9 @@ def encode_item(it):
         return ss.marked_update(it[1], malformed=True)[0]
     if k == 'R':
         return rc.route_refresh(it[1], it[2], 0, it[3])
-    if k == 'O':     # peer OPEN (handshake prefix)
-        return rc.open_msg(65002, it[1], '10.0.0.2', caps=[rc.cap_mp(1, 1), rc.cap(2)], as4=True)
+    if k == 'O':     # peer OPEN (handshake prefix); optional third element: extra capability codes the peer advertises
+        extra = [rc.cap(code) for code in (it[2] if len(it) > 2 else [])]
+        return rc.open_msg(65002, it[1], '10.0.0.2', caps=[rc.cap_mp(1, 1), rc.cap(2)] + extra, as4=True)
     if k == 'XM':    # corrupt marker: position, value
         m = bytearray(rc.MARKER)
         m[it[1]] = it[2]
@@ -289,7 +290,8 @@ def stream_case(draw):
     mode = draw(st.sampled_from(['est', 'est', 'hs']))
     items = []
     if mode == 'hs':
-        items.append(['O', draw(st.sampled_from([180, 90, 0, 30]))])
+        # (the peer may advertise capabilities the agent does not have, e.g. 6 = extended message: the framing rules stay)
+        items.append(['O', draw(st.sampled_from([180, 90, 0, 30])), draw(st.sampled_from([[], [], [6], [6, 70], [9, 71]]))])
         items.append(['K'])
     n = draw(st.integers(0, 5))
     for i in range(n):
@@ -352,6 +354,7 @@ def representative_streams():
         [['U', 1], ['XT', 7, 4], ['U', 9], ['K']],
         [['K'], ['XM', 15, 0xFE], ['U', 9]],
         [['O', 90], ['K'], ['U', 1], ['K']],
+        [['O', 90, [6]], ['K'], ['XL', 4097, 2, 8], ['U', 9]],
     ]
 
 
